@@ -238,11 +238,26 @@ theorem item_of_view {text : Bytes} {d : Syntax.Directive} {w : DirV} (h : viewD
       simp only [itemV, date_of_extract h1, fieldStr_of_extract h2, hbk bks h3, Option.bind_eq_bind,
         Option.pure_def, if_true]
 
+theorem okPrefix_congr_view {α β γ} {f : α → Option β} {g : α → Option γ} {k : β → Option γ} {l : List α} {ws : List β}
+    (h : l.mapM f = some ws) (hk : ∀ a w, f a = some w → g a = k w) : okPrefix g l = okPrefix k ws := by
+  induction l generalizing ws with
+  | nil => simp at h; subst h; rfl
+  | cons a l ih =>
+    simp only [List.mapM_cons, Option.bind_eq_bind, Option.bind_eq_some_iff, Option.pure_def, Option.some.injEq] at h
+    obtain ⟨w, hw, ws', hws, rfl⟩ := h
+    simp only [okPrefix, hk a w hw, ih hws]
+
+theorem okPrefix_map {α β γ} (k : β → Option γ) (m : α → β) (l : List α) :
+    okPrefix k (l.map m) = okPrefix (fun a => k (m a)) l := by
+  induction l with
+  | nil => rfl
+  | cons a l ih => simp only [List.map_cons, okPrefix, ih]
+
 /-- **loading a rendering of items**: parse and per-directive elaboration, as a function of the items' field views -/
 theorem loadText_rendered (padding : Nat) (path : String) (items : List Syntax.Item) (h : ItemsShape items) :
     loadText path (flat (outToks padding items)) =
       (match (viewsOf items).mapM (fun v => itemV v.bytes) with
-       | none => .error
+       | none => loadFailed (okPrefix (fun v => itemV v.bytes) (viewsOf items))
        | some its => loadItems its) := by
   obtain ⟨f2, hp, hv⟩ := parse_rendered_items padding path items h
   unfold loadText
@@ -250,7 +265,9 @@ theorem loadText_rendered (padding : Nat) (path : String) (items : List Syntax.I
   simp only
   have : f2.directives.mapM (item (flat (outToks padding items))) = ((viewsOf items).map DirT.bytes).mapM itemV :=
     mapM_congr_view hv (fun d w hw => item_of_view hw)
-  rw [this, List.mapM_map]
+  have hpre : okPrefix (item (flat (outToks padding items))) f2.directives = okPrefix itemV ((viewsOf items).map DirT.bytes) :=
+    okPrefix_congr_view hv (fun d w hw => item_of_view hw)
+  rw [this, hpre, List.mapM_map, okPrefix_map]
   rfl
 
 end Knut.FromSyntax
